@@ -649,10 +649,15 @@ def inflight_cases():
         st.tuples(st.just("assign"), st.just("Log"), st.lists(st.sampled_from(_LOG_LINES), min_size=1, max_size=3)),
     )
     op = st.one_of(scalar, lst).map(list)
-    return st.builds(lambda pre, during, acc, after, echo: {"pre": pre, "during": during, "accept": acc,
-                                                            "after": after, "echo": echo},
-                     st.lists(op, min_size=1, max_size=3), st.lists(op, max_size=3), st.booleans(),
-                     st.lists(op, max_size=2), st.booleans())
+    # a second save() may be called while the first SETCONF is unanswered ("save" among the during-ops; at most one
+    # is honoured); the protocol queues its SETCONF until the first answer arrives; "accept2" is Tor's answer to it
+    during = st.one_of(st.lists(op, max_size=3),
+                       st.builds(lambda a, b: a + [["save"]] + b, st.lists(op, min_size=1, max_size=2),
+                                 st.lists(op, max_size=2)))
+    return st.builds(lambda pre, during, acc, acc2, after, echo: {"pre": pre, "during": during, "accept": acc,
+                                                                  "accept2": acc2, "after": after, "echo": echo},
+                     st.lists(op, min_size=1, max_size=3), during, st.booleans(),
+                     st.booleans(), st.lists(op, max_size=2), st.booleans())
 
 
 def drive_inflight(case):
@@ -677,7 +682,22 @@ def drive_inflight(case):
     touched = set()
     assigned_pending = set()    # options with an assignment that Tor has not acknowledged yet
 
+    second = {"w": None}
+
     def apply(op, phase):
+        if op[0] == "save":
+            if phase != "during" or second["w"] is not None or not cfg.needs_save():
+                return None
+            try:
+                second["w"] = Watch(cfg.save())
+            except Exception as e:
+                res.bad("save-raised", "second save() while the first is unanswered: %r" % (e,))
+                return "dead"
+            pipe.pump()
+            if second["w"].fired:
+                res.bad("save-completed-before-ack", "second save(): %r" % (second["w"].outcome(),))
+                return "dead"
+            return None
         kind, name = op[0], op[1]
         try:
             if kind == "assign":
@@ -715,7 +735,8 @@ def drive_inflight(case):
                 return r
         return None
 
-    if case.get("echo") and any(op[0] != "assign" and op[1] in {p[1] for p in case["pre"]} for op in case["during"]):
+    if case.get("echo") and any(op[0] not in ("assign", "save") and op[1] in {p[1] for p in case["pre"]}
+                                for op in case["during"]):
         # a list is edited in place while the SETCONF carrying that same option is unanswered, and Tor then
         # announces (CONF_CHANGED) the value it stored: local edit and announcement conflict, and which of the two
         # the view should show afterwards is not defined by the statement -> excluded by construction
@@ -748,9 +769,22 @@ def drive_inflight(case):
         return res
     hold["on"] = False
     sim.cancel_rejects()
+    if second["w"] is not None and not case.get("accept2", True):
+        sim.reject_next(552, "refused by the reference Tor (second save)")
     for b in hold["held"]:
         pipe.inject(b)
     pipe.pump()
+    sim.cancel_rejects()
+    if second["w"] is not None:
+        res.label("second-save-while-first-unanswered")
+        res.label("overlapping-saves:%s/%s" % ("ok" if case["accept"] else "rej", "ok" if case.get("accept2", True) else "rej"))
+        if second["w"].fired != 1:
+            res.bad("save-fired-%d-times" % second["w"].fired, "second (overlapping) save after Tor answered both")
+            return res
+        if second["w"].succeeded != bool(case.get("accept2", True)):
+            res.bad("save-outcome-wrong", "Tor %s the second SETCONF, save() -> %r" % (
+                "accepted" if case.get("accept2", True) else "refused", second["w"].outcome()))
+            return res
     if hold["held"] and w1.fired != 1:
         res.bad("save-fired-%d-times" % w1.fired, "after Tor answered")
         return res
@@ -760,6 +794,8 @@ def drive_inflight(case):
     if case["accept"]:
         assigned_pending.difference_update(
             {op[1] for op in case["pre"] if op[0] == "assign"} - {op[1] for op in case["during"] if op[0] == "assign"})
+    if second["w"] is not None:
+        assigned_pending.clear() if (case["accept"] and case.get("accept2", True)) else None
     r = run_ops(case["after"], "after")
     if r == "ambiguous":
         res.excluded.append("in-place-edit-while-assignment-pending")
@@ -795,7 +831,7 @@ def drive_inflight(case):
         got = sim.get(name)
         if got != want_lines:
             tag = "change-lost"
-            if any(op[1] == name for op in case["during"]):
+            if any(len(op) > 1 and op[1] == name for op in case["during"]):
                 tag = "change-made-while-save-in-flight-lost"
             res.bad(tag, "%s: locally %r, Tor has %r after all saves were acknowledged (SETCONFs: %r; case %r)" % (
                 name, want, got, lines, case))
@@ -810,9 +846,9 @@ def drive_inflight(case):
     res.nontrivial = bool(case["during"]) and bool(hold["held"])
     if case["during"]:
         res.label("ops-while-save-in-flight")
-        if any(op[0] != "assign" for op in case["during"]):
+        if any(op[0] not in ("assign", "save") for op in case["during"]):
             res.label("in-place-edit-while-save-in-flight")
-        if {op[1] for op in case["during"]} & {op[1] for op in case["pre"]}:
+        if {op[1] for op in case["during"] if len(op) > 1} & {op[1] for op in case["pre"]}:
             res.label("same-option-changed-again-while-in-flight")
     res.label("inflight-save-" + ("accepted" if case["accept"] else "rejected"))
     return res
@@ -853,16 +889,19 @@ MUTANTS = [
      "            sent = self.unsaved\n            self.__dict__['unsaved'] = {}\n",
      "            sent = dict(self.unsaved)\n"),
     ("clear-pending-on-ack-wholesale", "txtorcon/torconfig.py",
-     "        if not self.protocol:\n            self.__dict__['unsaved'] = {}\n        return self",
-     "        self.__dict__['unsaved'] = {}\n        return self"),
+     "        if not self.protocol:\n            self.__dict__['unsaved'] = {}\n        self._saves_in_flight[:]",
+     "        self.__dict__['unsaved'] = {}\n        self._saves_in_flight[:]"),
     ("rejected-changes-not-restored", "txtorcon/torconfig.py",
-     "        for k, v in sent.items():\n            self.unsaved.setdefault(k, v)\n        return fail",
-     "        return fail"),
+     "            if not any(k in later for later in self._saves_in_flight):\n                self.unsaved.setdefault(k, v)\n",
+     "            pass\n"),
     ("rejected-changes-overwrite-newer", "txtorcon/torconfig.py",
-     "            self.unsaved.setdefault(k, v)", "            self.unsaved[k] = v"),
+     "                self.unsaved.setdefault(k, v)", "                self.unsaved[k] = v"),
+    ("older-refused-save-overrides-newer", "txtorcon/torconfig.py",
+     "            if not any(k in later for later in self._saves_in_flight):\n                self.unsaved.setdefault(k, v)",
+     "            self.unsaved.setdefault(k, v)"),
     ("swallow-rejection", "txtorcon/torconfig.py",
-     "        for k, v in sent.items():\n            self.unsaved.setdefault(k, v)\n        return fail",
-     "        for k, v in sent.items():\n            self.unsaved.setdefault(k, v)\n        return self"),
+     "                self.unsaved.setdefault(k, v)\n        return fail",
+     "                self.unsaved.setdefault(k, v)\n        return self"),
     ("insert-not-tracked", "txtorcon/torconfig.py",
      "    insert = _wrapture(list.insert)", "    insert = list.insert"),
     ("pop-not-tracked", "txtorcon/torconfig.py",
